@@ -68,7 +68,10 @@ def drain():
 
 def merge(keys):
     for k in keys or ():
-        _hits.add((k[0], k[1]))
+        k = (k[0], k[1])
+        if k not in _hits:  # a worker that merges its own children's lines hands them on at its next drain
+            _hits.add(k)
+            _new.append(k)
 
 
 def hits():
